@@ -36,3 +36,53 @@ Print pf_vfee.
 Definition pf_coinhours := Eval vm_compute in
   failing (fun c : Z * Z * Z * Z * res (Z * error) => let '(tm, co, ho, t, o) := c in res_ze_matches (coinhours_spec tm co ho t) o) cases_coinhours.
 Print pf_coinhours.
+
+(* ---- the loop functions, decided on the implementation's own outputs against
+   the mathematical quantities of Model/HoursSpec.v (true sums over Z, accrued
+   hours, the legacy exception) — no translated code is used here *)
+Definition lcase_p := (Z * list (Z * Z * Z) * list (Z * Z) * res (Z * error) * res (Z * error) *
+  res (Z * error) * res error * res error * res (Z * error) * Z * Z * res error)%type.
+Definition lp_in (i : Z * Z * Z) : uxin := let '(t, c, h) := i in mkIn t c h 0.
+Definition lp_out (o : Z * Z) : txout := mkOut (fst o) (snd o).
+Definition lp_is_errval (r : res (Z * error)) : bool :=
+  match r with Val (0, Some _) => true | _ => false end.
+Definition lp_accepts (r : res error) : bool := match r with Val None => true | _ => false end.
+Definition lp_rejects (r : res error) : bool := match r with Val (Some _) => true | _ => false end.
+Definition pf_l_oh := Eval vm_compute in
+  failing (fun c : lcase_p => let '(T, ins, outs, oh, uxc, uxh, vcs, vhs, fe, vf, burn, vtf) := c in
+    let s := out_sum (map lp_out outs) in
+    res_ze_matches (ret_or_err (s <? 2 ^ 64) s "Transaction output hours overflow") oh) cases_loops.
+Print pf_l_oh.
+Definition pf_l_uxcoins := Eval vm_compute in
+  failing (fun c : lcase_p => let '(T, ins, outs, oh, uxc, uxh, vcs, vhs, fe, vf, burn, vtf) := c in
+    let s := in_coins (map lp_in ins) in
+    res_ze_matches (ret_or_err (s <? 2 ^ 64) s "UxArray.Coins addition overflow") uxc) cases_loops.
+Print pf_l_uxcoins.
+Definition pf_l_uxhours := Eval vm_compute in
+  failing (fun c : lcase_p => let '(T, ins, outs, oh, uxc, uxh, vcs, vhs, fe, vf, burn, vtf) := c in
+    let i := map lp_in ins in
+    if forallb (acc_ok T) i && (in_acc_sum T i <? 2 ^ 64)
+    then res_ze_matches (Val (in_acc_sum T i, None)) uxh else lp_is_errval uxh) cases_loops.
+Print pf_l_uxhours.
+Definition pf_l_vcs := Eval vm_compute in
+  failing (fun c : lcase_p => let '(T, ins, outs, oh, uxc, uxh, vcs, vhs, fe, vf, burn, vtf) := c in
+    if coins_ok (map lp_in ins) (map lp_out outs) then lp_accepts vcs else lp_rejects vcs) cases_loops.
+Print pf_l_vcs.
+Definition pf_l_vhs := Eval vm_compute in
+  failing (fun c : lcase_p => let '(T, ins, outs, oh, uxc, uxh, vcs, vhs, fe, vf, burn, vtf) := c in
+    if block_hours_ok T (map lp_in ins) (map lp_out outs) then lp_accepts vhs else lp_rejects vhs) cases_loops.
+Print pf_l_vhs.
+Definition pf_l_txfee := Eval vm_compute in
+  failing (fun c : lcase_p => let '(T, ins, outs, oh, uxc, uxh, vcs, vhs, fe, vf, burn, vtf) := c in
+    let i := map lp_in ins in let o := map lp_out outs in
+    if forallb (acc_ok T) i && (in_acc_sum T i <? 2 ^ 64) && (out_sum o <? 2 ^ 64) && (out_sum o <=? in_acc_sum T i)
+    then res_ze_matches (Val (in_acc_sum T i - out_sum o, None)) fe else lp_is_errval fe) cases_loops.
+Print pf_l_txfee.
+(* fee.VerifyTransactionFee: output-hours overflow first, then the fee rule (burn 0 is outside the domain) *)
+Definition pf_l_vtf := Eval vm_compute in
+  failing (fun c : lcase_p => let '(T, ins, outs, oh, uxc, uxh, vcs, vhs, fe, vf, burn, vtf) := c in
+    let s := out_sum (map lp_out outs) in
+    (burn =? 0) ||
+    (if s <? 2 ^ 64 then res_e_matches (Val (fee_verdict s vf burn)) vtf
+     else res_e_matches (Val (Some "Transaction output hours overflow"%string)) vtf)) cases_loops.
+Print pf_l_vtf.
